@@ -303,6 +303,41 @@ class RecordingExecutor(DagExecutor):
         return self.inner.execute_dag(dag, **kwargs)
 
 
+class CountingExecutor(DagExecutor):
+    """Wraps a real in-process executor (single-threaded, threads): every pipeline of the DAG handed to it is replaced by a
+    copy whose task function counts its invocations per operation, so 'tasks actually run' is observed at the task body,
+    independently of the callbacks the executor chooses to deliver."""
+
+    def __init__(self, inner: DagExecutor):
+        super().__init__()
+        self.inner = inner
+        self.entered = 0
+        self.calls = {}  # op name -> [repr(task input), ...]
+        self.lock = threading.Lock()
+
+    @property
+    def name(self):
+        return self.inner.name
+
+    def execute_dag(self, dag, **kwargs):
+        import dataclasses
+
+        self.entered += 1
+        dag = dag.copy()
+        for n, d in dag.nodes(data=True):
+            pl = d.get("pipeline")
+            if pl is None:
+                continue
+
+            def counted(m, *a, __f=pl.function, __n=n, **k):
+                with self.lock:
+                    self.calls.setdefault(__n, []).append(repr(m))
+                return __f(m, *a, **k)
+
+            d["pipeline"] = dataclasses.replace(pl, function=counted)
+        return self.inner.execute_dag(dag, **kwargs)
+
+
 class NeverExecutor(DagExecutor):
     def __init__(self):
         super().__init__()
